@@ -1,0 +1,20 @@
+//go:build !verif
+
+package rescache
+
+// No-op verification hooks. The real implementations are compiled in with the
+// build tag "verif" (see verif_on.go).
+
+func verifPoint(site string) {}
+
+func verifCount(site string) {}
+
+func verifActivity() {}
+
+func verifWrapGo(cb func()) func() { return cb }
+
+func verifEvict(c *Cache, d int64) {}
+
+func verifEvictCancel(e *EventSubscription) {}
+
+func verifResetDropped(rs *ResourceSubscription) {}
